@@ -29,7 +29,7 @@ Seq2(ids) == ids   \* the orchestrator normalises a JSON null (nil Go slice) to 
 
 TInit == R!Init /\ l = 1 /\ HWMInit
 
-TReset      == Is("Reset") /\ Step
+TReset      == Is("Reset")
                /\ pc' = [r \in TReq |-> "new"] /\ idOf' = [r \in TReq |-> "none"]
                /\ pending' = [i \in TIds |-> "none"] /\ ps' = [p \in TPoller |-> "idle"]
                /\ batch' = [p \in TPoller |-> <<>>] /\ agent' = "idle" /\ cur' = <<>> /\ seen' = <<>>
@@ -37,56 +37,80 @@ TReset      == Is("Reset") /\ Step
                /\ wresp' = [i \in TIds |-> <<"none", "none">>] /\ plook' = [i \in TIds |-> "none"] /\ inflight' = [r \in TReq |-> <<"none", "none">>]
                /\ delivered' = [r \in TReq |-> <<"none", "none">>] /\ calls' = [r \in TReq |-> 0]
                /\ handed' = [i \in TIds |-> 0] /\ faults' = 0 /\ hit' = {}
-
-TClientSend == Is("ClientSend") /\ pc[E.r] = "new" /\ Stutter /\ Step
-TRegister   == Is("Register") /\ E.path \in TReq /\ R!Register(E.path, E.id) /\ Step
-TListStart  == Is("ListStart") /\ R!ListStart(E.p) /\ Step
+               /\ Step
+TClientSend == Is("ClientSend") /\ pc[E.r] = "new" /\ Stutter
+               /\ Step
+TRegister   == Is("Register") /\ E.path \in TReq /\ R!Register(E.path, E.id)
+               /\ Step
+TListStart  == Is("ListStart") /\ R!ListStart(E.p)
+               /\ Step
 TRecv       == Is("Recv") /\ pending[E.id] # "none" /\ idOf[pending[E.id]] = E.id
-               /\ R!Recv(E.p, pending[E.id]) /\ Step
-TListReply  == Is("ListReply") /\ Step
-               /\ IF Seq2(E.ids) = <<>>
+               /\ R!Recv(E.p, pending[E.id])
+               /\ Step
+TListReply  == Is("ListReply")
+               /\ (IF Seq2(E.ids) = <<>>
                     THEN R!ListTimeout(E.p) \/ (ps[E.p] = "idle" /\ Stutter)
-                    ELSE batch[E.p] = E.ids /\ R!ListReplyAny(E.p)
+                    ELSE batch[E.p] = E.ids /\ R!ListReplyAny(E.p))
+               /\ Step
 \* agent side of the list call: the loop sees exactly the batch the proxy replied with
-TListOK     == Is("ListOK") /\ Step /\ Stutter
-               /\ IF Seq2(E.ids) = <<>> THEN cur = <<>> ELSE (cur = E.ids /\ agent = "proc")
-TDedup      == Is("Dedup") /\ cur # <<>> /\ Head(cur) = E.id /\ R!AgentDedupStep /\ Step
-TSpawn      == Is("Spawn") /\ w[E.id] = "fetch" /\ Stutter /\ Step
-TFetch      == Is("Fetch") /\ (E.found <=> pending[E.id] # "none") /\ R!WFetch(E.id) /\ Step
-TWForward   == Is("WForward") /\ w[E.id] = "forward" /\ Stutter /\ Step
-TBackend    == Is("BackendHandle") /\ Step
-               /\ \E i \in TIds : w[i] = "forward" /\ wreq[i] = E.tok /\ R!WForward(i)
-TBackendReply == Is("BackendReply") /\ Step
-               /\ \E i \in TIds : w[i] = "backend" /\ wreq[i] = E.tok /\ R!BackendReply(i)
-TBackendFault == Is("BackendFault") /\ Step
+TListOK     == Is("ListOK") /\ Stutter
+               /\ (IF Seq2(E.ids) = <<>> THEN cur = <<>> ELSE (cur = E.ids /\ agent = "proc"))
+               /\ Step
+TDedup      == Is("Dedup") /\ cur # <<>> /\ Head(cur) = E.id /\ R!AgentDedupStep
+               /\ Step
+TSpawn      == Is("Spawn") /\ w[E.id] = "fetch" /\ Stutter
+               /\ Step
+TFetch      == Is("Fetch") /\ (E.found <=> pending[E.id] # "none") /\ R!WFetch(E.id)
+               /\ Step
+TWForward   == Is("WForward") /\ w[E.id] = "forward" /\ Stutter
+               /\ Step
+TBackend    == Is("BackendHandle")
+               /\ (\E i \in TIds : w[i] = "forward" /\ wreq[i] = E.tok /\ R!WForward(i))
+               /\ Step
+TBackendReply == Is("BackendReply")
+               /\ (\E i \in TIds : w[i] = "backend" /\ wreq[i] = E.tok /\ R!BackendReply(i))
+               /\ Step
+TBackendFault == Is("BackendFault")
                /\ \E i \in TIds : /\ wreq[i] = E.tok
                                   /\ \/ (E.kind = "down" /\ R!BackendDown(i))
                                      \/ (E.kind # "down" /\ R!BackendBreaks(i))
-TPostLookup == Is("PostLookup") /\ (E.found <=> pending[E.id] # "none") /\ R!PostLookup(E.id) /\ Step
-TClientResp == Is("ClientResp") /\ R!Handoff(E.id) /\ Step
+               /\ Step
+TPostLookup == Is("PostLookup") /\ (E.found <=> pending[E.id] # "none") /\ R!PostLookup(E.id)
+               /\ Step
+TClientResp == Is("ClientResp") /\ R!Handoff(E.id)
+               /\ Step
 \* the logged response must be the one Relay derives through the chain, and (OneClientPerResponse,
 \* checked incrementally here because the quantifier over all pairs is quadratic in the trace) no
 \* other client has received the same backend response
-TClientRecv == Is("ClientRecv") /\ R!ClientDone(E.r) /\ delivered'[E.r] = <<E.kind, E.tok>> /\ Step
-               /\ \A r2 \in TReq : (r2 # E.r /\ E.kind = "ok") => delivered[r2] # <<E.kind, E.tok>>
-TClientCancel == Is("ClientCancel") /\ pending[E.id] # "none" /\ R!ClientCancel(pending[E.id]) /\ Step
+TClientRecv == Is("ClientRecv") /\ R!ClientDone(E.r) /\ delivered'[E.r] = <<E.kind, E.tok>>
+               /\ (\A r2 \in TReq : (r2 # E.r /\ E.kind = "ok") => delivered[r2] # <<E.kind, E.tok>>)
+               /\ Step
+TClientCancel == Is("ClientCancel") /\ pending[E.id] # "none" /\ R!ClientCancel(pending[E.id])
+               /\ Step
 \* a victim's client gave up waiting (its request was hit by an injected fault)
-TClientGaveUp == Is("ClientGaveUp") /\ E.r \in hit \cup TVictims /\ Stutter /\ Step
-TFault      == Is("Fault") /\ Stutter /\ Step
-TWServed    == Is("WServed") /\ Stutter /\ Step
-TWClosed    == Is("WClosed") /\ Stutter /\ Step
-TPostFault  == Is("PostFault") /\ R!PostFault(E.id) /\ Step
-TFetchFault == Is("FetchFault") /\ R!WFetchFault(E.id) /\ Step
+TClientGaveUp == Is("ClientGaveUp") /\ E.r \in hit \cup TVictims /\ Stutter
+               /\ Step
+TFault      == Is("Fault") /\ Stutter
+               /\ Step
+TWServed    == Is("WServed") /\ Stutter
+               /\ Step
+TWClosed    == Is("WClosed") /\ Stutter
+               /\ Step
+TPostFault  == Is("PostFault") /\ R!PostFault(E.id)
+               /\ Step
+TFetchFault == Is("FetchFault") /\ R!WFetchFault(E.id)
+               /\ Step
 TOther      == (Is("PollCheck") \/ Is("Healthy") \/ Is("Backoff") \/ Is("ListFail") \/ Is("HealthProbe")
                 \/ Is("SWHeader") \/ Is("SWWrite") \/ Is("SWClose") \/ Is("SerStart") \/ Is("SerDone")
                 \/ Is("Attempt") \/ Is("AttemptStatus") \/ Is("AttemptErr") \/ Is("BrsRead") \/ Is("BrsSeek"))
-               /\ Stutter /\ Step
+               /\ Stutter
+               /\ Step
 \* end of a scenario: every client that was not hit by a fault has its own OK response, and
 \* both processes are still running (no action of Relay ever stops the agent)
-TFinal      == Is("Final") /\ Stutter /\ Step
+TFinal      == Is("Final") /\ Stutter
                /\ E.agent_alive /\ E.proxy_alive
-               /\ \A r \in TReq : (pc[r] # "new" /\ r \notin TVictims) => delivered[r] = <<"ok", r>>
-
+               /\ (\A r \in TReq : (pc[r] # "new" /\ r \notin TVictims) => delivered[r] = <<"ok", r>>)
+               /\ Step
 TNext == TReset \/ TClientSend \/ TRegister \/ TListStart \/ TRecv \/ TListReply \/ TListOK \/ TDedup
          \/ TSpawn \/ TFetch \/ TWForward \/ TBackend \/ TBackendReply \/ TBackendFault \/ TPostLookup
          \/ TClientResp \/ TClientRecv \/ TClientCancel \/ TClientGaveUp \/ TFault \/ TWServed
